@@ -97,3 +97,11 @@ define_hasher!(Jh224, consts::JH224_H0, U28);
 define_hasher!(Jh256, consts::JH256_H0, U32);
 define_hasher!(Jh384, consts::JH384_H0, U48);
 define_hasher!(Jh512, consts::JH512_H0, U64);
+
+/// Verification hook (off unless built with `--cfg cryptocorrosion_verif`): makes crate-private items
+/// and state reachable from the external contract harnesses in $CRYPTOCORROSION_VERIF_DIR. Add-only.
+#[cfg(cryptocorrosion_verif)]
+#[doc(hidden)]
+pub mod verif_incrate {
+    include!(concat!(env!("CRYPTOCORROSION_VERIF_DIR"), "/incrate/jh_x86_64.rs"));
+}
